@@ -3,6 +3,7 @@ package sum
 import (
 	"bytes"
 	"context"
+	"encoding/binary"
 	"encoding/hex"
 	"flag"
 	"fmt"
@@ -12,7 +13,9 @@ import (
 
 	"github.com/9elements/converged-security-suite/v2/cmd/exp/pcr0tool/commands"
 	"github.com/9elements/converged-security-suite/v2/cmd/exp/pcr0tool/commands/dumpregisters/helpers"
+	"github.com/9elements/converged-security-suite/v2/pkg/bootflow/actions/tpmactions"
 	"github.com/9elements/converged-security-suite/v2/pkg/bootflow/bootengine"
+	"github.com/9elements/converged-security-suite/v2/pkg/bootflow/datasources"
 	"github.com/9elements/converged-security-suite/v2/pkg/bootflow/flows"
 	"github.com/9elements/converged-security-suite/v2/pkg/bootflow/lib/format"
 	"github.com/9elements/converged-security-suite/v2/pkg/bootflow/subsystems/trustchains/amdpsp"
@@ -399,6 +402,39 @@ func printReproducePCR0Result(
 			}
 		}
 		resultEntries = append(resultEntries, &commandLog[idx])
+	}
+
+	if result.ACMPolicyStatus != nil {
+		// The answer is about PCR0_DATA (the first measurement which is not disabled)
+		// with the corrected ACM_POLICY_STATUS in its first 8 bytes.
+		for idx, logEntry := range resultEntries {
+			_, isEnabled := measurementIdx[logEntry]
+			if _, isInit := logEntry.Command.(*tpm.CommandInit); isInit || !isEnabled {
+				continue
+			}
+			var pcr0Data []byte
+			if action, ok := logEntry.CauseAction.(*tpmactions.TPMExtend); ok {
+				if dataSource, ok := action.DataSource.(*datasources.StaticData); ok {
+					pcr0Data = dataSource.RawBytes()
+				}
+			}
+			h, err := hashAlgo.Hash()
+			if len(pcr0Data) < 8 || err != nil {
+				logger.Errorf(ctx, "unable to apply the corrected ACM_POLICY_STATUS to '%v' (not a PCR0_DATA measurement?): %v", logEntry, err)
+				return
+			}
+			hasher := h.New()
+			hasher.Write(binary.LittleEndian.AppendUint64(nil, result.ACMPolicyStatus.Raw()))
+			hasher.Write(pcr0Data[8:])
+			corrected := &tpm.CommandLogEntry{
+				Command:          tpm.NewCommandExtend(0, hashAlgo, hasher.Sum(nil)),
+				CauseCoordinates: logEntry.CauseCoordinates,
+				CauseAction:      logEntry.CauseAction,
+			}
+			measurementIdx[corrected] = measurementIdx[logEntry]
+			resultEntries[idx] = corrected
+			break
+		}
 	}
 
 	if len(result.OrderSwaps) != 0 {
